@@ -5,10 +5,45 @@
    real sha2 / p256 crates (never through omaha-client).  A query the tables
    do not answer is reported as code 3 (ORACLE-MISS, a harness bug), never
    answered by a silent default: [oracle_complete] checks a superset of the
-   queries [verify] can make (Proofs/EvalC01Facts.v: if it holds, the result
+   queries [verify] can make (Run/EvalC01Facts.v: if it holds, the result
    does not depend on the default values). *)
 Require Export Verif.Base.Bytes Verif.Model.Cup.
+From Coq Require Import PrimInt63.
+(* the case files import Coq PrimInt63 themselves for the literal notation 0x..%uint63 *)
 Open Scope N_scope.
+
+(* ---- compact byte-string literals for the generated case files ----
+   Coq spends ~50 us per character on a string literal (10 constructor nodes
+   per character go through type inference) and the C01 case files are several
+   MB of byte strings; a primitive-integer literal is one node for 7 bytes.
+   b7 len (W w1 (W w2 .. WE)): the bytes of w1, w2, .. big-endian, 7 per word,
+   the last word holding the remaining len mod 7 (or 7) bytes.  Used only to
+   write inputs down; no definition of the model or theorem mentions it. *)
+Inductive w63 := WE | W (x : int) (r : w63).
+Arguments W _%uint63 _.
+
+(* low byte of a word as N, by its 8 bits (Uint63.to_Z walks all 63 bits and
+   N division is bit-serial: both far too slow for megabytes of input) *)
+Definition byte_of_int (x : int) : N :=
+  let bit (i : int) (w : N) : N :=
+    if PrimInt63.eqb (PrimInt63.land (PrimInt63.lsr x i) 1%uint63) 0%uint63 then 0 else w in
+  bit 0%uint63 1 + bit 1%uint63 2 + bit 2%uint63 4 + bit 3%uint63 8 +
+  bit 4%uint63 16 + bit 5%uint63 32 + bit 6%uint63 64 + bit 7%uint63 128.
+
+Fixpoint word_bytes (k : nat) (x : int) (acc : bytes) : bytes :=
+  match k with
+  | O => acc
+  | S k' => word_bytes k' (PrimInt63.lsr x 8%uint63) (byte_of_int x :: acc)
+  end.
+
+Fixpoint unpack7 (len : nat) (l : w63) : bytes :=
+  match l with
+  | WE => []
+  | W x r => let k := Nat.min len 7 in word_bytes k x [] ++ unpack7 (len - k) r
+  end.
+
+Definition b7 (len : N) (l : w63) : bytes := unpack7 (N.to_nat len) l.
+Arguments b7 _%N _.
 
 Inductive c01case :=
 | K01 (req resp nonce : bytes)                 (* retained request body, response body, 32-byte nonce *)
